@@ -468,7 +468,9 @@ impl Mut {
         } else {
             KIND_NORMAL
         };
-        let flags = if self.rng.chance(1, 10) { FLAG_TRACE_SCAN } else { 0 };
+        // (the SATB barrier iterates the fields of an object with scan_object and is documented
+        // to work only for objects that support slot enqueuing)
+        let flags = if !cfg.is_concurrent() && self.rng.chance(1, 10) { FLAG_TRACE_SCAN } else { 0 };
         (size, nrefs, sem, kind, flags, align_log, offset)
     }
 
@@ -518,7 +520,7 @@ impl Mut {
     }
     fn build_tree_rec(&mut self, r: usize, depth: usize, fanout: usize) {
         let size = HEADER_BYTES + 8 * fanout + 8 * self.rng.usize_below(4);
-        let fl = if self.rng.chance(1, 8) { FLAG_TRACE_SCAN } else { 0 };
+        let fl = if !world().cfg.is_concurrent() && self.rng.chance(1, 8) { FLAG_TRACE_SCAN } else { 0 };
         if self.alloc_into_root(r, size, fanout, SEM_DEFAULT, KIND_NORMAL, fl, 3, 0) == 0 {
             return;
         }
@@ -834,6 +836,9 @@ impl Mut {
             w.last_progress.fetch_add(1, Ordering::Relaxed);
             world::safepoint_poll();
             // keep the live set bounded: when over budget, prefer dropping
+            if n % 128 == 0 {
+                world::check_heap_size("mutator");
+            }
             let over = if n % 64 == 0 {
                 let sh = w.shadow.lock().unwrap();
                 let bytes: usize = sh.by_addr.values().map(|(e, _)| *e).zip(sh.by_addr.keys()).map(|(e, s)| e - *s).sum();
